@@ -195,6 +195,7 @@ void do_release_next(Ctx &c) {
 void run_ops(Ctx &c, int thr) {
     for (const sim::Op &op : c.plan->ops) {
         if (op.thr != thr) continue;
+        if (c.plan->get("poison_errors", 0)) hx::poison_errors(c.plan->seed, sim::seq());
         switch (op.kind) {
             case OP_ACQ:
             case OP_ACQ_UPTO: do_acquire(c, op); break;
